@@ -24,6 +24,9 @@ def check(run):
     doist, dodoer = ix.cls(M, "Doist"), ix.cls(M, "DoDoer")
     for cls in (doist, dodoer):
         facts_obs(run, "C06.R1", cls, sched.extend_facts(run, cls), sched.EXPECT_EXTEND, "extend")
+        facts_obs(run, "C06.R1", cls, sched.extend_atomic_facts(run, cls), {"extend.failed-enter-leaves-doers-unchanged": True}, "extend")
+        ef = sched.enter_facts(run, cls)
+        facts_obs(run, "C06.R1", cls, {"enter.own-deeds-selected-by": ef["enter.own-deeds-selected-by"]}, {"enter.own-deeds-selected-by": ("is-none",)}, "enter")
         facts_obs(run, "C06.R2", cls, sched.remove_facts(run, cls), sched.EXPECT_REMOVE, "remove")
         f = ix.method(cls, "remove")
         for fa in sched.conservation_facts(run, f, "remove"):
@@ -48,6 +51,8 @@ MUTANTS = [
     Mutant("remove-raw-membership", M, "DoDoer.remove", "elif doer in rdoers:", "elif doer in doers:", {"C06.R2"}),
     Mutant("remove-while-loop", M, "Doist.remove", "for i in range(len(deeds)):", "while deeds:", {"C06.R2"}),
     Mutant("recur-clears-doers", M, "DoDoer.recur", "        return (not deeds)", "        if not deeds:\n            self.doers.clear()\n        return (not deeds)", {"C06.R3"}, canary=True),
+    Mutant("extend-doers-before-enter", M, "Doist.extend", "        deeds = self.enter(doers=doers)  # provide fresh deeds for new doers\n        self.doers.extend(doers)\n", "        self.doers.extend(doers)\n        deeds = self.enter(doers=doers)  # provide fresh deeds for new doers\n", {"C06.R1"}),
+    Mutant("enter-falsy-means-own", M, "DoDoer.enter", "        if doers is None:\n            doers = self.doers", "        if not doers:\n            doers = self.doers", {"C06.R1"}),
     Mutant("silent-loop-rewrite", M, "Doist.remove", "        for doer in rdoers:  # update .doers to remove rdoers\n            self.doers.remove(doer)",
            "        for gone in rdoers:\n            self.doers.remove(gone)", silent=True),
 ]
